@@ -34,7 +34,7 @@ CHECKS = {
     },
     "C06": {
         "level": "exploration",
-        "technique": "exhaustive truth-table enumeration of Comparison/Condition/BooleanExpression/DiscreteLookup through the public evaluate() API, plus the same criteria as RestrictionCriteria in generated documents routed through the real container walk, against a mathematical reference",
+        "technique": "exhaustive truth-table enumeration of Comparison/Condition/BooleanExpression/DiscreteLookup through the public evaluate() API, every interleaving of two real threads evaluating one criterion object (baton scheduler, packet accesses as yield points), plus the same criteria as RestrictionCriteria in generated documents routed through the real container walk, against a mathematical reference",
         "text": "The full truth table of all six relations in all 16 spellings over value/raw/literal alphabets that contain falsy values and int-vs-float pairs, every AND/OR tree up to the bound under every assignment, and several hundred restriction criteria of every form (read from XML and built from objects) over a packet family are evaluated; each result must be exactly True/False as the relation dictates.",
         "note": "Literals that cannot be coerced, bytes operands and references to not-yet-decoded parameters are unspecified and outside the alphabet.",
     },
@@ -77,8 +77,8 @@ CHECKS = {
     "C11": {
         "level": "model_checking",
         "technique": "exhaustive enumeration of packet streams x option combinations against per-packet solo runs, and exhaustive lattice-path interleaving of next() calls over generators sharing one definition against their sequential runs; definition canon and package-state footprint compared before/after",
-        "text": "All streams of <= 4 packets over a 5-packet palette under all 8 option combinations must equal the concatenation of solo results; all interleavings of 2 (and 3) generators, including segment-combining ones and one over a scripted socket, must give each generator its sequential output; the definition and every module/class-level attribute of the package must be unchanged. Position vectors (states), next() calls (transitions) and interleavings (traces) are measured.",
-        "note": "Interleaving is of next() calls in one thread (the library has no threads); the footprint monitor covers module- and class-level attributes of all loaded space_packet_parser modules.",
+        "text": "All streams of <= 4 packets over a 12-packet palette under 13 option combinations must equal the concatenation of solo results; all interleavings of 2 (and 3) generators, including segment-combining ones and one over a scripted socket, must give each generator its sequential output; the definition and every module/class-level attribute of the package must be unchanged. Position vectors (states), next() calls (transitions) and interleavings (traces) are measured.",
+        "note": "Interleaving is of next() calls in one thread, plus (kernel E-thread) two real threads decoding different packets with one definition under every schedule with a bounded number of preemptions, thread switches at packet item accesses; the footprint monitor covers module- and class-level attributes of all loaded space_packet_parser modules.",
     },
     "C09": {
         "level": "exploration",
